@@ -141,14 +141,23 @@ def mc(module, cfg, workers=8, timeout=1800, expect_fail=False, dump_actions=Fal
     metadir = os.path.join(WORK, "tlc", tag)
     shutil.rmtree(metadir, ignore_errors=True)
     os.makedirs(metadir, exist_ok=True)
-    extra = {"jvm": jvm or ["-Xmx12g"], "tlc": []}
+    extra = {"jvm": jvm or ["-Xmx8g"], "tlc": []}
     dot = None
     if dump_actions:
         dot = os.path.join(metadir, "graph")
         extra["tlc"] = ["-dump", "dot,actionlabels", dot]
     t0 = time.time()
-    p = sh(_tlc_cmd(module, cfg, metadir, workers, extra), cwd=metadir, timeout=timeout, check=False)
-    out = p.stdout
+    for attempt in (1, 2):
+        p = sh(_tlc_cmd(module, cfg, metadir, workers, extra), cwd=metadir, timeout=timeout, check=False)
+        out = p.stdout
+        finished = ("Model checking completed" in out) or ("is violated" in out) or ("is false" in out) or ("Error:" in out)
+        if finished or attempt == 2:
+            break
+        # the JVM died without a verdict (e.g. memory pressure while other jobs run): once more, alone
+        log("[mc] %s/%s ended without a verdict (exit %s), retrying" % (module, cfg, p.returncode))
+        shutil.rmtree(metadir, ignore_errors=True)
+        os.makedirs(metadir, exist_ok=True)
+        time.sleep(5)
     m = _RE_STATES.search(out)
     res = {"states": int(m.group(1)) if m else 0, "distinct": int(m.group(2)) if m else 0,
            "ok": "Model checking completed. No error has been found." in out, "out": out,
@@ -227,82 +236,137 @@ def _tv_one(module, cfg, trace_path, tag):
     raise ToolError("trace validation %s on %s ended abnormally:\n%s" % (module, trace_path, out[-5000:]))
 
 
-def split_sessions(lines, reset_events):
-    """Group trace lines into sessions: a session starts at each line whose ev is in reset_events;
-    with no reset events every line is its own session."""
-    if not reset_events:
-        return [[x] for x in lines]
-    sessions, cur = [], []
-    for x in lines:
-        ev = x[1].get("ev")
-        if ev in reset_events and cur:
-            sessions.append(cur)
-            cur = []
-        cur.append(x)
-    if cur:
-        sessions.append(cur)
-    return sessions
+class LazyLines:
+    """The events of one or more NDJSON trace files as (raw line, parsed object) pairs, parsed on demand:
+    thorough-tier traces hold millions of events and must not be materialised in Python."""
+
+    def __init__(self, paths, skip_events=()):
+        self.paths = list(paths)
+        self.skip = tuple(skip_events)
+
+    def __iter__(self):
+        for p in self.paths:
+            with open(p) as f:
+                for ln in f:
+                    ln = ln.rstrip("\n")
+                    if not ln.strip():
+                        continue
+                    if self.skip and _ev_of(ln) in self.skip:
+                        continue
+                    yield ln, json.loads(ln)
+
+    def __getitem__(self, sl):
+        out = []
+        stop = sl.stop if isinstance(sl, slice) else sl + 1
+        for i, x in enumerate(self):
+            if i >= stop:
+                break
+            out.append(x)
+        return out[sl] if isinstance(sl, slice) else out[-1]
+
+    def __add__(self, other):
+        r = LazyLines(self.paths + other.paths, self.skip)
+        return r
+
+
+_RE_EV = re.compile(r'"ev"\s*:\s*"([A-Za-z0-9_]+)"')
+
+
+def _ev_of(ln):
+    m = _RE_EV.search(ln)
+    return m.group(1) if m else ""
 
 
 def tv(module, cfg, trace_path, reset_events=(), shards=10, max_rejects=8, tag=None, prefix_events=()):
-    """Validate a recorded NDJSON trace against a trace spec.  The trace is cut into sessions,
-    dealt over `shards` single-worker TLC processes; a rejected session is reported, removed, and
-    the rest of its shard is validated again, so one rejection does not hide later ones.
-    Returns dict(events, sessions, states, rejects=[{event, diag, session}])."""
+    """Validate a recorded NDJSON trace against a trace spec.  The trace is cut into sessions (a session starts at each
+    event named in reset_events; without reset events every line is a session), contiguous runs of sessions are dealt over
+    `shards` single-worker TLC processes; a rejected session is reported, removed, and the rest of its shard is validated
+    again, so one rejection does not hide later ones.  Streaming: the trace is never held in memory.
+    Returns dict(events, sessions, states, rejects=[{event, diag, session, index_in_session}], lines=<lazy iterable>)."""
     tag = tag or module
+    reset = set(reset_events)
+    pref = set(prefix_events)
+    prefix = []
+    sess_len = []          # number of lines of each session, in file order (prefix lines excluded)
     with open(trace_path) as f:
-        raw = [ln for ln in f.read().split("\n") if ln.strip()]
-    lines = [(ln, json.loads(ln)) for ln in raw]
-    prefix = [x for x in lines if x[1].get("ev") in prefix_events]      # e.g. a Config event every shard needs
-    lines = [x for x in lines if x[1].get("ev") not in prefix_events]
-    sessions = split_sessions(lines, set(reset_events))
-    if not sessions:
+        for ln in f:
+            if not ln.strip():
+                continue
+            ev = _ev_of(ln) if (reset or pref) else ""
+            if ev in pref:
+                prefix.append(ln if ln.endswith("\n") else ln + "\n")
+                continue
+            if not reset or ev in reset or not sess_len:
+                sess_len.append(1)
+            else:
+                sess_len[-1] += 1
+    if not sess_len:
         raise ToolError("empty trace " + trace_path)
-    shards = max(1, min(shards, len(sessions)))
-    # contiguous blocks keep neighbouring sessions together; sizes balanced by line count
-    total = sum(len(s) for s in sessions)
-    buckets, cur, acc = [], [], 0
-    for s in sessions:
-        cur.append(s)
-        acc += len(s)
-        if acc >= total / shards and len(buckets) < shards - 1:
-            buckets.append(cur)
-            cur, acc = [], 0
-    if cur:
-        buckets.append(cur)
+    total = sum(sess_len)
+    nsh = max(1, min(shards, len(sess_len)))
+    # contiguous buckets balanced by line count: bucket b holds sessions [bs[b], bs[b+1])
+    bs, acc = [0], 0
+    for i, n in enumerate(sess_len):
+        acc += n
+        if acc >= total * len(bs) / nsh and len(bs) < nsh and i + 1 < len(sess_len):
+            bs.append(i + 1)
+    bs.append(len(sess_len))
+    nb = len(bs) - 1
+    os.makedirs(os.path.join(WORK, "tlc"), exist_ok=True)
+    paths = [os.path.join(WORK, "tlc", "%s-shard%d.ndjson" % (tag, b)) for b in range(nb)]
+    # one streaming pass writes every bucket file
+    outs = [open(p, "w") for p in paths]
+    for o in outs:
+        o.writelines(prefix)
+    with open(trace_path) as f:
+        si, left, b = 0, sess_len[0], 0
+        for ln in f:
+            if not ln.strip():
+                continue
+            if pref and _ev_of(ln) in pref:
+                continue
+            while si >= bs[b + 1]:
+                b += 1
+            outs[b].write(ln if ln.endswith("\n") else ln + "\n")
+            left -= 1
+            if left == 0:
+                si += 1
+                left = sess_len[si] if si < len(sess_len) else 0
+    for o in outs:
+        o.close()
 
-    def run_bucket(bi):
-        bucket = list(buckets[bi])
+    def run_bucket(b):
+        lens = list(sess_len[bs[b]:bs[b + 1]])
         rejects, states = [], 0
+        path = paths[b]
         for attempt in range(max_rejects + 1):
-            path = os.path.join(WORK, "tlc", "%s-shard%d.ndjson" % (tag, bi))
-            os.makedirs(os.path.dirname(path), exist_ok=True)
-            with open(path, "w") as f:
-                for ln, _ in prefix:
-                    f.write(ln + "\n")
-                for s in bucket:
-                    for ln, _ in s:
-                        f.write(ln + "\n")
-            r = _tv_one(module, cfg, path, "%s-shard%d" % (tag, bi))
+            r = _tv_one(module, cfg, path, "%s-shard%d" % (tag, b))
             states += r["states"]
             if r["accepted"]:
-                os.remove(path)
-                return rejects, states
-            # locate the session holding the unmatched line
+                break
             k = r["line"] - len(prefix)
             if k <= 0:
                 raise ToolError("trace prefix event rejected: %s" % r)
             pos = 0
-            for si, s in enumerate(bucket):
-                if pos + len(s) >= k:
-                    rejects.append({"event": s[k - pos - 1][1], "diag": r["diag"], "session": [x[1] for x in s],
-                                    "index_in_session": k - pos})
-                    del bucket[si]
+            for j, n in enumerate(lens):
+                if pos + n >= k:
                     break
-                pos += len(s)
+                pos += n
             else:
                 raise ToolError("unmatched index %d beyond trace" % k)
-            if not bucket:
+            # read that session, rewrite the file without it
+            sess, tmp = [], path + ".tmp"
+            with open(path) as f, open(tmp, "w") as g:
+                for i, ln in enumerate(f):
+                    i2 = i - len(prefix)
+                    if pos <= i2 < pos + lens[j]:
+                        sess.append(json.loads(ln))
+                    else:
+                        g.write(ln)
+            os.replace(tmp, path)
+            rejects.append({"event": sess[k - pos - 1], "diag": r["diag"], "session": sess, "index_in_session": k - pos})
+            del lens[j]
+            if not lens:
                 break
         try:
             os.remove(path)
@@ -311,12 +375,13 @@ def tv(module, cfg, trace_path, reset_events=(), shards=10, max_rejects=8, tag=N
         return rejects, states
 
     rejects, states = [], 0
-    with concurrent.futures.ThreadPoolExecutor(max_workers=shards) as ex:
-        for rj, st in ex.map(run_bucket, range(len(buckets))):
+    with concurrent.futures.ThreadPoolExecutor(max_workers=nb) as ex:
+        for rj, st in ex.map(run_bucket, range(nb)):
             rejects += rj
             states += st
-    log("[tv] %s: %d events in %d sessions over %d shards, %d rejected" % (module, len(lines), len(sessions), len(buckets), len(rejects)))
-    return {"events": len(lines), "sessions": len(sessions), "states": states, "rejects": rejects, "lines": lines}
+    log("[tv] %s: %d events in %d sessions over %d shards, %d rejected" % (module, total, len(sess_len), nb, len(rejects)))
+    return {"events": total, "sessions": len(sess_len), "states": states, "rejects": rejects,
+            "lines": LazyLines([trace_path], skip_events=tuple(pref))}
 
 
 # ------------------------------------------------------------------ verdicts / evidence
@@ -372,7 +437,14 @@ class Check:
         self.cov["tv_runs"].append({"trace": name, "events": r["events"], "sessions": r["sessions"],
                                     "tlc_states": r["states"], "rejected": len(r["rejects"])})
         # a few actual events as samples: prefer ones that are neither trivial nor huge
-        picked = [obj for ln, obj in r["lines"] if 250 <= len(ln) <= 6000][:sample_events] or [obj for ln, obj in r["lines"][:sample_events]]
+        picked = []
+        for i, (ln, obj) in enumerate(r["lines"]):
+            if 250 <= len(ln) <= 6000:
+                picked.append(obj)
+            if len(picked) >= sample_events or i > 20000:
+                break
+        if not picked:
+            picked = [obj for ln, obj in r["lines"][:sample_events]]
         for obj in picked:
             self.cov["samples"].append(_shorten(obj))
 
